@@ -42,7 +42,25 @@ CALLS = [
     ("format", {"select": {"value": "a`b"}, "from": "t"}, {"ansi_quotes": False}),
     ("format", {"nonsense": {"x": object.__name__}}, {}),
     ("format", {"select": {"value": "order"}, "from": ["t", {"left join": "u", "on": {"eq": ["t.a", "u.a"]}}], "orderby": {"value": "a", "sort": "desc"}, "limit": 3}, {}),
+    # one tree under every formatter option, one statement under other parse options: a memo keyed too coarsely shows on these
+    ("format", {"select": [{"value": "order"}, {"value": "t.my col"}, {"value": "a"}], "from": "select"}, {}),
+    ("format", {"select": [{"value": "order"}, {"value": "t.my col"}, {"value": "a"}], "from": "select"}, {"ansi_quotes": False}),
+    ("format", {"select": [{"value": "order"}, {"value": "t.my col"}, {"value": "a"}], "from": "select"}, {"should_quote": "always"}),
+    ("format", {"select": [{"value": "order"}, {"value": "t.my col"}, {"value": "a"}], "from": "select"}, {"should_quote": "never"}),
+    ("parse_mysql", "select a+b-c", {}),
+    ("parse", "select a+b-c", {"null": None, "all_columns": "*"}),
 ]
+
+
+def related_pairs():
+    """calls that share their argument and differ in options or entry point: every ordered pair of them is always run"""
+    out = []
+    for i, a in enumerate(CALLS):
+        for j, b in enumerate(CALLS):
+            if i != j and a[1] == b[1] and (a[0] == "format") == (b[0] == "format"):
+                out.append((i, j))
+    return out
+
 
 DRIVER = r'''
 import sys, json, warnings
@@ -55,6 +73,8 @@ def run(c):
     fn, arg, kw = c
     kw = dict(kw)
     if kw.get("calls") == "normal_op": kw["calls"] = M.normal_op
+    if kw.get("should_quote") == "always": kw["should_quote"] = lambda s: True
+    if kw.get("should_quote") == "never": kw["should_quote"] = lambda s: False
     try:
         r = getattr(M, fn)(arg, **kw)
         return ["ok", json.loads(json.dumps(r, default=lambda o: "<<%s>>" % type(o).__name__))]
